@@ -19,6 +19,10 @@ import c06
 SCENARIOS = [
     {"spec": {"n": 2, "integrator": "whfast", "dt": 0.05, "t0": 0.5},
      "segs": [[["step", 1]], [["step", 2]], [["reset_integrator"], ["add", 1e-4, 3.0], ["step", 1]], [["step", 1]]]},
+    # degenerate snapshots: empty deltas (snapshot byte-identical to snapshot 0: 28-byte blob), a snapshot identical to its predecessor,
+    # the first append onto a one-snapshot archive being the smallest possible blob, later crashes behind empty deltas
+    {"spec": {"n": 2, "integrator": "whfast", "dt": 0.05, "t0": 0.0},
+     "segs": [[], [], [["step", 1]], [], [["set_t", 0.0]], [["step", 2]], []]},
     {"spec": {"n": 2, "integrator": "ias15", "dt": 0.01, "t0": 0.0},
      "segs": [[["step", 1]], [["step", 1]], [["integrator", "whfast"], ["step", 2]], [["remove_idx", 1, 1], ["add", 1e-3, 2.0], ["step", 1]]]},
     {"spec": {"n": 3, "integrator": "leapfrog", "dt": 0.02, "t0": 0.0},
@@ -134,7 +138,7 @@ def run(ctx):
 def _run(ctx, libdir, rebound, ft, E, rng, tmpd):
     import warnings
     warnings.simplefilter("ignore")
-    scen = SCENARIOS[:ctx.scale(2, 5)]
+    scen = SCENARIOS[:ctx.scale(3, 6)]
     if ctx.thorough:
         for _ in range(6):
             h = c06.gen_history(rng, small=True)
@@ -151,6 +155,7 @@ def _run(ctx, libdir, rebound, ft, E, rng, tmpd):
     open_jobs = []      # library open of every image
     open_meta = []      # (scenario, append index a, cut k, n_complete)
     resume_jobs = []; resume_meta = []
+    r1_jobs = []; r1_meta = []
     ref_hash = {}
     ref_relaxed = {}
     uninit = []
@@ -206,7 +211,7 @@ def _run(ctx, libdir, rebound, ft, E, rng, tmpd):
             fa, fb = files[a - 1], files[a]
             wlen = len(fb) - (len(fa) - 12)
             cuts = list(range(0, wlen + 1))
-            if not ctx.thorough and not (si == 0 and a == 1):
+            if not ctx.thorough and not (si == 0 and a == 1) and wlen > 160:     # small writes (empty deltas: 40 bytes) are always swept completely
                 cuts = sorted(set(list(range(0, 30)) + list(range(wlen - 45, wlen + 1)) + rng.sample(range(wlen), min(wlen, 40))))
             exp = []
             for k in cuts:
@@ -227,6 +232,11 @@ def _run(ctx, libdir, rebound, ft, E, rng, tmpd):
                     for seg in sc["segs"][a:]:
                         ops += seg + [["snap"]]
                     resume_jobs.append({"kind": "resume", "file": p, "ops": ops}); resume_meta.append((si, a, k))
+            if si == 1 and a >= 2:
+                for k in sorted(set([10, wlen // 2, wlen - 2, rng.randrange(wlen)])):
+                    p = os.path.join(tmpd, "r1_%d_%d_%d.bin" % (si, a, k))
+                    open(p, "wb").write(image(fa, fb, k))
+                    r1_jobs.append({"kind": "resume1", "file": p, "ops": list(sc["segs"][a])}); r1_meta.append((si, a, k))
         # first write: dense sample of cuts
         f0 = files[0]
         cuts0 = sorted(set(list(range(0, 20)) + list(range(len(f0) - 40, len(f0) + 1)) + rng.sample(range(len(f0)), ctx.scale(40, 600))))
@@ -262,6 +272,27 @@ def _run(ctx, libdir, rebound, ft, E, rng, tmpd):
                     r1 = c06.run_jobs(libdir, [[job]], timeout=60)[0]
                     res_res.append(r1[0] if isinstance(r1, list) else {"died": r1[0], "stderr": r1[1]})
         coq_out = fut_coq.result()
+
+    # ---- the append performed ON a crash image (corruption test, repair walk, in-place patch, write): model save_append vs library
+    r1res = c06.run_jobs(libdir, [[j] for j in r1_jobs], timeout=120)
+    terms = []
+    r1body = L.PRELUDE + L.rcfg_text(ft)
+    for i, (job, r) in enumerate(zip(r1_jobs, r1res)):
+        r0 = r[0] if isinstance(r, list) else {}
+        if "after" not in r0:
+            terms.append(None); continue
+        r1body += "Definition i%d := %s.\nDefinition n%d := %s.\nDefinition a%d := %s.\n" % (
+            i, L.nl(bytes.fromhex(r0["image"])), i, L.nl(bytes.fromhex(r0["stream"])), i, L.nl(bytes.fromhex(r0["after"])))
+        terms.append("(append_file R i%d n%d, a%d)" % (i, i, i))
+    good = [t for t in terms if t]
+    r1body += "Eval vm_compute in (bad_bytes [%s]).\n" % ";".join(good)
+    r1ok, r1out = vlib.coq_eval("c07_resume1", r1body, timeout=600) if good else (False, "no cases")
+    r1bad = vlib.parse_coq_list_nat(r1out) if r1ok else None
+    ctx.obligation("correspondence:C07 model save_append on crash images (repair walk incl. empty deltas) == file written by the library on %d restarts" % len(good),
+                   len(good) >= 6 and len(good) == len(terms) and r1bad == [],
+                   "differing cases %s %s" % (r1bad, [r1_meta[i] for i in (r1bad or [])[:4]] if r1bad else r1out[-300:] + str([x for x in r1res if not isinstance(x, list)][:1])))
+    if r1bad == []:
+        ctx.traces += len(good)
 
     # ---- attach logic (reb_simulation_save_to_file_{interval,step,walltime}): model vs library on the cadence state and file size
     ar = c06.run_jobs(libdir, [[{"kind": "attach", "presteps": rng.randint(0, 5), "restart_from": sorted(rng.sample(range(0, 4), 2))}]], timeout=120)[0]
@@ -416,7 +447,7 @@ def _run(ctx, libdir, rebound, ft, E, rng, tmpd):
             ncmp += 1
             if pred != got:
                 nbad.append("scenario %d append %d cut %d: model %s library %s" % (si, a, k, str(pred)[:150], str(got)[:150]))
-    ctx.traces = ncmp + ntraces
+    ctx.traces = (ctx.traces or 0) + ncmp + ntraces
     ctx.obligation("correspondence:C07 observed write order (strace) == model write_trace on %d appends" % ntraces, trace_ok and ntraces > 0,
                    "; ".join(trace_detail[:4]))
     ctx.obligation("correspondence:C07 model open(crash_image) == library open on %d crash images" % ncmp, ncmp > 0 and not nbad, "; ".join(nbad[:5]))
